@@ -15,6 +15,10 @@ Parts
   ldt-plus         calendars x dates (range ends, epoch, year ends) x times x 6 units x amounts: plus_<unit>
   ldt-period       plus/minus/+/-(Period): every single component crossing midnight and whole days, mixed-sign and
                    huge cancelling components, years/months first, (x + p) - p == x
+  ldt-cancel       every ordered pair of units (weeks, days and the six time units): +K days' worth against -K days' worth,
+                   K in {2^31, 2^40, 2^64}, through plus/+/add/minus/-/subtract in every calendar
+  ldt-yearmonth    periods with BOTH years and months (all sign combinations, with and without a time part) on the month ends of a
+                   leap year and the following year of every calendar, plus and minus routes (order of the two clampings)
 """
 from __future__ import annotations
 
@@ -698,9 +702,10 @@ def check_ldt_period(acc, cal_id, day, t, comp, aliases=True, kw=True):
             d1 = x.date
             if comp.get("years") or comp.get("months"):
                 d1 = d1.plus_years(sgn * comp.get("years", 0)).plus_months(sgn * comp.get("months", 0))
-            base = day_of(d1) + sgn * (7 * comp.get("weeks", 0) + comp.get("days", 0))
-            if not (lo <= base <= hi):
-                mid_ok = False      # the date part alone leaves the calendar: either outcome is defensible, none demanded
+            after_weeks = day_of(d1) + sgn * 7 * comp.get("weeks", 0)
+            base = after_weeks + sgn * comp.get("days", 0)
+            if not (lo <= after_weeks <= hi and lo <= base <= hi):
+                mid_ok = False      # a date unit applied in order (years, months, weeks, days) leaves the calendar: a raise is defensible
         except Exception as e:  # noqa: BLE001
             if exc_origin(e) == "harness":
                 raise
@@ -754,6 +759,81 @@ def w_ldt_period(job):
                 guarded(acc, "C10/ldt/period", {"kind": "ldt-period", "cal": cal_id, "day": day, "t": t, "period": comp_enc(comp)}, check_ldt_period, cal_id, day, t, comp,
                         aliases=(level != "basic"), kw=(idx % 8 == 0))
     acc.sample({"calendar": cal_id, "level": level, "periods_per_state": len(period_list(0, level)), "example_period": period_list(1, level)[40]})
+    return acc, []
+
+
+# cancelling pairs and year+month combinations ------------------------------------------------------------------------
+PAIR_UNITS = ("weeks", "days") + LDT_UNITS
+
+
+def cancel_pairs(rich):
+    """for every ORDERED pair of units (weeks and days included): +K days' worth of the first against -K days' worth of the second
+    (+ a small remainder on a time unit), K in {2^31, 2^40, 2^64}: each component alone is far outside every calendar and
+    outside Duration's range, the sum is a few units"""
+    out = []
+    ks = (2 ** 31, 2 ** 40, 2 ** 64) if rich else (2 ** 40, 2 ** 31)
+    for K in ks:
+        smalls = ((3, 0), (0, -1), (0, 0)) if rich else (((3, 0),) if K == 2 ** 40 else ((0, 0),))
+        for a in PAIR_UNITS:
+            for b in PAIR_UNITS:
+                if a == b:
+                    continue
+                D = 7 * K if "weeks" in (a, b) else K
+
+                def worth(u):
+                    return D // 7 if u == "weeks" else (D if u == "days" else D * (NSD // M.UNIT_NS[u]))
+                for sa, sb in smalls:
+                    out.append({a: worth(a) + (sa if a in LDT_UNITS else 0), b: -worth(b) + (sb if b in LDT_UNITS else 0)})
+    return out
+
+
+@worker
+def w_ldt_cancel(job):
+    cal_id, day, times, rich = job
+    acc = Acc()
+    pairs = cancel_pairs(rich)
+    for t in times:
+        acc.count(states=1)
+        for idx, comp in enumerate(pairs):
+            guarded(acc, "C10/ldt/period", {"kind": "ldt-period", "cal": cal_id, "day": day, "t": t, "period": comp_enc(comp)}, check_ldt_period, cal_id, day, t, comp,
+                    aliases=True, kw=(idx % 8 == 0))
+    acc.sample({"calendar": cal_id, "cancelling_pairs": len(pairs), "example": comp_txt(pairs[5])})
+    return acc, []
+
+
+def yearmonth_dates(cal_id):
+    """month ends (last day and the day before) of a leap year and of the year after it, found from the middle of the calendar"""
+    cal = CalendarSystem.for_id(cal_id)
+    y = (cal.min_year + cal.max_year) // 2
+    for k in range(40):
+        if cal.is_leap_year(y + k):
+            y += k
+            break
+    days = set()
+    for yy in (y, y + 1):
+        if not (cal.min_year < yy < cal.max_year):
+            continue
+        for m in range(1, cal.get_months_in_year(yy) + 1):
+            n = day_of(LocalDate(yy, m, cal.get_days_in_month(yy, m), cal))
+            days.add(n)
+            days.add(n - 1)
+    return sorted(days)
+
+
+YEARMONTH = [{"years": y, "months": m} for y in (1, -1, 4) for m in (1, -1, 11, 13, -12)] + [{"years": 1, "months": 1, "hours": 25}, {"years": -1, "months": -1, "nanoseconds": -1}]
+
+
+@worker
+def w_ldt_yearmonth(job):
+    cal_id, days = job
+    acc = Acc()
+    t = 12 * M.NS_H
+    for day in days:
+        acc.count(states=1)
+        for comp in YEARMONTH:
+            guarded(acc, "C10/ldt/period", {"kind": "ldt-period", "cal": cal_id, "day": day, "t": t, "period": comp}, check_ldt_period, cal_id, day, t, comp,
+                    aliases=True, kw=False)
+    acc.sample({"calendar": cal_id, "month_end_dates": len(days), "year_month_periods": len(YEARMONTH)})
     return acc, []
 
 
@@ -846,6 +926,23 @@ def run(ctx):
                 jobs.append((cid, chunk, times, level))
         for acc, _ in pmap(w_ldt_period, _rot(jobs, ctx.seed)):
             ctx.merge_part("ldt-period", acc)
+    if _want(ctx, "ldt-cancel"):
+        jobs = []
+        for cid in cal_ids:
+            mids = [n for n in cal_dates(cid, False) if dcls(cid, n) == "mid"]
+            anchor = 11016 if 11016 in mids else mids[len(mids) // 2]
+            rich = thorough or cid in FULL_CALS
+            for t in (0, 22 * M.NS_H + 30 * M.NS_MIN + 15 * M.NS_S + 250 * M.NS_MS, NSD - 1):
+                jobs.append((cid, anchor, (t,), rich))
+        for acc, _ in pmap(w_ldt_cancel, _rot(jobs, ctx.seed)):
+            ctx.merge_part("ldt-cancel", acc)
+    if _want(ctx, "ldt-yearmonth"):
+        jobs = []
+        for cid in cal_ids:
+            for chunk in _split(yearmonth_dates(cid), 2):
+                jobs.append((cid, chunk))
+        for acc, _ in pmap(w_ldt_yearmonth, _rot(jobs, ctx.seed)):
+            ctx.merge_part("ldt-yearmonth", acc)
     for cid in cal_ids:
         if not cal_range(cid)[2]:
             ctx.degrade("calendar %s: private day range differs from first day of min_year..last day of max_year (C01's subject); "
